@@ -30,7 +30,7 @@ def main(ctx):
     ctx.rule("C11.axis-typing", "format rule of @ indexes modes in level space (order <= 2 exception checked)", min_instances=4)
     axis.run_axis(ctx, ix, "C11.axis-typing", modules=["tensora.tensor"], exceptions=tensorapi.axis_exceptions())
     problems = operator_problems(ctx.tier, ctx.seed)
-    totals = sweep(ctx, ["addr.k_addr", "addr.k_sum", "addr.k_dense", "addr.k_poly", "addr.k_complete", "addr.lattice_order", "cover.k_cover"], problems=problems)
+    totals = sweep(ctx, ["addr.k_addr", "addr.k_sum", "addr.k_dense", "addr.k_poly", "addr.k_complete", "addr.lattice_order", "cover.k_cover", "bounds.memory_safety", "bounds.capacity_init"], problems=problems)
     ctx.extra["operator_family"] = {k: (v if not isinstance(v, list) else len(v)) for k, v in totals.items()}
     ctx.rule("C01.K-addr", min_instances=600)
     ctx.rule("C01.K-poly", min_instances=600)
